@@ -42,7 +42,7 @@ META = {
                 'graham:non-boundary': 900, 'graham:order': 150, 'nontrivial': 1200},
     'scale': {'quick': 1, 'thorough': 20},
     'shards': {'quick': 8, 'thorough': 16},
-    'quick_chain': 3000, 'quick_graham': 3000,
+    'quick_chain': 8000, 'quick_graham': 8000,
     'thorough_chain': 64000, 'thorough_graham': 64000,
     'assumptions': [
         'orientation signs are decided in exact rational arithmetic on the float64 values handed to the library; '
